@@ -1,7 +1,7 @@
 (* Model/GcxsGetitem.v — sparse/numba_backend/_compressed/indexing.getitem, the GCXS wrapper around
    the selection kernels of Model/GcxsIndex.v, with the same branch structure:
-     ndim = 1      x.tocoo()[key], back through GCXS.from_coo            (Model/Convert.v, Model/CooIndex.v)
-     ndim >= 2     normalize_index; the full-slice shortcut; get_single_element for all-integer keys;
+     ndim <= 1     x.tocoo()[key], back through GCXS.from_coo            (Model/Convert.v, Model/CooIndex.v)
+     ndim >= 2     normalize_index; a key with None: the COO route as well (fix a4762ef); the full-slice shortcut; get_single_element for all-integer keys;
                    otherwise: shape / compressed / uncompressed bookkeeping, reordering of the key by
                    _axis_order, convert_to_flat of the compressed and of the uncompressed part,
                    get_slicing_selection (all column selectors ascending) or get_array_selection,
@@ -169,17 +169,24 @@ Section GG.
         let caxes'' := if (length shape' =? 1)%nat then [] else caxes' in
         Ok (GGArr (mkGCXS shape' caxes'' data' indices3 indptr3 (g_fill g))).
 
+  (* x.tocoo()[key], back through GCXS.from_coo (default compressed axes) *)
+  Definition coo_route (kf : nat -> nat) (g : gcxs V) (ix : index) : res ggres :=
+    r <- getitem kf (gcxs_tocoo veqb add g) ix ;;
+    match r with
+    | GScalar v => Ok (GGScalar v)
+    | GArr y => ca' <- resolve_axes (c_shape y) None ;; Ok (GGArr (gcxs_from_coo y ca'))
+    end.
+
+  (* getitem (after fix a4762ef): ndim <= 1 goes through COO; for ndim >= 2 a key holding None (after
+     normalize_index) goes through COO too — `GCXS.from_coo(x.tocoo()[orig_key])` — and the n-d code only sees
+     keys without None (its re-insertion loop for None axes is still in the source, and in gcxs_getitem_nd,
+     but is no longer reached with a None) *)
   Definition gcxs_getitem (kf : nat -> nat) (g : gcxs V) (ix : index) : res ggres :=
     match g_shape g with
-    | [] => Raise TypeError                            (* 0-d: not handled by the code (finding D22) *)
-    | [_] =>
-      r <- getitem kf (gcxs_tocoo veqb add g) ix ;;
-      match r with
-      | GScalar v => Ok (GGScalar v)
-      | GArr y =>                                       (* GCXS.from_coo(result): default compressed axes *)
-        ca' <- resolve_axes (c_shape y) None ;; Ok (GGArr (gcxs_from_coo y ca'))
-      end
-    | _ => gcxs_getitem_nd g ix
+    | [] | [_] => coo_route kf g ix
+    | _ =>
+      key <- normalize_index ix (g_shape g) ;;
+      if existsb is_nnone key then coo_route kf g ix else gcxs_getitem_nd g ix
     end.
 End GG.
 
